@@ -42,7 +42,8 @@ META = {
 
 
 def structures(tier, seed):
-    out = [{"sid": "lemma;c-grid-vector-across-non-reversed-links", "part": "lemma"}, {"sid": "native;two-face-vector-domains-vs-undivided[bounded]", "part": "native"}]
+    out = [{"sid": "lemma;c-grid-vector-across-non-reversed-links", "part": "lemma"}, {"sid": "native;two-face-vector-domains-vs-undivided[bounded]", "part": "native"},
+           {"sid": "2d-vector;diff_2d_vector+interp_2d_vector", "part": "2d"}]
     for op in ("diff", "interp"):
         for kind, slot, lk in (("X", ("X", 1), ("same", False)), ("X", ("X", 1), ("swap", False)), ("Y", ("Y", 1), ("swap", False)), ("Y", ("Y", 1), ("same", False)),
                                ("X", ("X", 0), ("swap", False)), ("X", ("X", 1), ("swap", True))):
@@ -306,8 +307,64 @@ def run_native(s):
     return {"sid": s["sid"], "obligations": obs, "paths": 0, "queries": 0, "solver_time": 0.0, "engine_errors": [], "covers": {"native": 1}, "counts": {"bounded_standin_evaluations": n}}
 
 
+def run_2dvector(s):
+    """Grid.diff_2d_vector / interp_2d_vector (deprecated entry points): each component is the along-axis operation on
+    that component with the other one as partner - relational, on a face-connected grid with an axis-swapping link"""
+    mods = util.xgcm_modules()
+    s5 = C05.mk("X", {("X", 1): ("swap", False), ("Y", 1): ("swap", False)}, ("X",), {"X": "fill", "Y": "extend"}, "none")
+    s5["conn"] = ("X", "Y")
+    covers = {}
+
+    def body():
+        import warnings
+
+        import xgcm
+        from vp.mxr import MDataset
+        b = C05.build(s5)
+        N, F = b["N"], b["F"]
+        ds = MDataset({"x": N, "xl": N, "y": N, "yl": N, "face": F, "t": b["esz"]["t"], "z": b["esz"]["z"]})
+        g = xgcm.Grid(ds, coords={"X": {"center": "x", "left": "xl"}, "Y": {"center": "y", "left": "yl"}}, periodic=False, boundary={"X": "fill", "Y": "extend"}, autoparse_metadata=False)
+        g._facedim = "face"
+        g._face_connections = b["grid"]._face_connections
+        u, v = b["da"], b["partner"]
+        vec = util.TrackedDict({"X": u, "Y": v})
+        for name in ("diff_2d_vector", "interp_2d_vector"):
+            opn = name.split("_")[0]
+            with warnings.catch_warnings():
+                warnings.simplefilter("ignore")
+                try:
+                    both = getattr(g, name)(vec)
+                    rx = getattr(g, opn)({"X": u}, "X", to="center", other_component={"Y": v})
+                    ry = getattr(g, opn)({"Y": v}, "Y", to="center", other_component={"X": u})
+                except (symx.EngineUnsupported, symx.InfeasiblePath, symx.PathAbort):
+                    raise
+                except Exception as e:  # noqa
+                    oblige(f"{name}:returns-normally", False, detail=f"{type(e).__name__}: {e}")
+                    continue
+            covers["returned"] = covers.get("returned", 0) + 1
+            oblige(f"{name}:one-result-per-component", isinstance(both, dict) and list(both) == ["X", "Y"], detail=str(type(both)))
+            if not isinstance(both, dict) or set(both) != {"X", "Y"}:
+                continue
+            for k, ref in (("X", rx), ("Y", ry)):
+                got = both[k]
+                oblige(f"{name}:{k}-component:dims", tuple(got.dims) == tuple(ref.dims))
+                if tuple(got.dims) == tuple(ref.dims):
+                    q = {d: z3.Int(f"q_{d}") for d in got.dims}
+                    oblige(f"{name}:{k}-component==along-axis-operation-with-the-other-as-partner", z3.simplify(got.elem(q)).eq(z3.simplify(ref.elem(q))) or symx.ctx().check_valid(got.elem(q) == ref.elem(q))[0] == "proved")
+        oblige("2d-vector:argument-unchanged", not vec.log and list(vec) == ["X", "Y"])
+    with util.patched(*util.std_patches(mods, sets=True)):
+        rep = symx.explore(body, s["sid"])
+    obs = []
+    for name, ob in rep.merged().items():
+        rec = {"fn": "grid.Grid._apply_vector_function", "clause": name, "status": ob.status, "time": ob.time, "detail": ob.detail}
+        if ob.status == "failed":
+            rec["witness"] = {"part": "2d", "detail": ob.detail}
+        obs.append(rec)
+    return {"sid": s["sid"], "obligations": obs, "paths": rep.paths, "queries": rep.queries, "solver_time": rep.solver_time, "engine_errors": rep.engine_errors, "covers": covers}
+
+
 def run_structure(s):
-    return {"lemma": run_lemma, "dispatch": run_dispatch, "simple": run_simple, "native": run_native}[s["part"]](s)
+    return {"lemma": run_lemma, "dispatch": run_dispatch, "simple": run_simple, "native": run_native, "2d": run_2dvector}[s["part"]](s)
 
 
 REQUIRED_COVERS = ["lemma", "returned"]
